@@ -58,9 +58,9 @@ def crop_to_bbox(
     # If we have a positive offset, we need to pad the patch.
     patch: Union[np.ndarray, torch.Tensor]
     if isinstance(data, torch.Tensor):
-        patch = pad_value * torch.ones(bbox_size.tolist(), dtype=data.dtype)
+        patch = torch.full(bbox_size.tolist(), pad_value, dtype=data.dtype)
     elif isinstance(data, np.ndarray):
-        patch = pad_value * np.ones(bbox_size, dtype=data.dtype)
+        patch = np.full(bbox_size, pad_value, dtype=data.dtype)
 
     patch_idx = [slice(i, max(i, j)) for i, j in zip(l_offset, bbox_size - r_offset)]
 
